@@ -431,6 +431,25 @@ def rule_f(repo, chk):
         chk.floor('C01.f', n, 2, '(call sites of %s)' % meth)
     # wrappers that forward the protocol call by name
     chk.exhaustive_rules.append('C01.f every by-name call site of py__simple_getitem__ / iterate_argument_clinic')
+    # executing an operator of the user's program on two literal VALUES (access.execute_operation: op(self._obj, other)) runs Python's own
+    # arithmetic: besides TypeError that can be any ArithmeticError (an int literal too large for a float: OverflowError).  Every call of
+    # the access-level execute_operation is inside a try that catches both.
+    k = 0
+    for c in repo.calls_of('execute_operation'):
+        if not (isinstance(c.func, ast.Attribute) and 'access' in norm(c.func.value)):
+            continue
+        f = repo.enclosing_func(c)
+        if f is None:
+            continue
+        k += 1
+        caught = set()
+        for t in enclosing_handlers(repo.enclosing_stmt(c), f):
+            for h in t.handlers:
+                caught |= handler_types(h)
+        ok = bool(caught & {'Exception', 'BaseException', '*'}) or ('TypeError' in caught and bool(caught & {'ArithmeticError', 'OverflowError'}))
+        chk.ob('C01.f', ok, c, 'evaluating an operator on literal values of the analysed program (`%s`) is contained: TypeError and ArithmeticError' % short(c, 50),
+               'handlers around it catch: %s' % sorted(caught), key='literal-operation|%s' % repo.qual_of(c))
+    chk.floor('C01.f', k, 1, '(calls of the access-level execute_operation)')
 
 
 # --------------------------------------------------------------------------------------- C01.g
